@@ -20,6 +20,6 @@ one() {
   rm -rf $S
 }
 export -f one
-ls seeded | grep '^C[0-9]' | xargs -P 4 -I{} bash -c 'one {}'
+ls seeded | grep '^C[0-9]' | xargs -P 6 -I{} bash -c 'one {}'
 sort $LOG -o $LOG
 echo "HEAD $HEAD: $(grep -c 'exit=1 VIOLATION' $LOG) of $(wc -l < $LOG) seeded changes reported; not reported: $(grep -v 'exit=1 VIOLATION' $LOG | tr '\n' ' ')"
